@@ -93,6 +93,7 @@ func run(c hx.Config) error {
 	}
 	r := hx.NewRng(c.Seed)
 	cfg := cx.Probe()
+	cx.ContainerChecks = true // Refine / Overwrite checks on the containers, besides the size checks
 	perKind, maxDepth := 50, 4
 	if c.Thorough() {
 		perKind, maxDepth = 500, 6
